@@ -142,3 +142,59 @@ Print Assumptions C08_warp_equal_bins_refuted.
 Theorem C08_warp_number_of_bins_refuted : exists s e k, s < e /\ (0 < k)%nat /\ length (warp_model [] s e k) <> k.
 Proof. exists 0, 10, 4%nat. split; [lia|split; [lia|]]. vm_compute. congruence. Qed.
 Print Assumptions C08_warp_number_of_bins_refuted.
+From Verif Require Import Proofs.BaseLemmas Proofs.RestrictProofs.
+From Coq Require Import ZifyBool.
+
+(* ====================================================================================================
+   Composition laws of get(start, end): two successive windows are the window of the intersection of the two
+   ranges; a window is the restrict by the one-interval set (the bridge between C08 and C03); every trial of a
+   trial tensor is a window of the series. *)
+
+Lemma filter_ext_in' {A} (p q : A -> bool) l : (forall x, p x = q x) -> filter p l = filter q l.
+Proof. intros E. induction l as [|x r IH]; simpl; [reflexivity|]. rewrite E, IH. reflexivity. Qed.
+
+Lemma get_get a b c d ts : sortedZ ts ->
+  get_times c d (get_times a b ts) = get_times (Z.max a c) (Z.min b d) ts.
+Proof.
+  intros Hs. rewrite (get_times_spec a b ts Hs).
+  rewrite get_times_spec by (apply filter_sortedZ; exact Hs).
+  rewrite (get_times_spec (Z.max a c) (Z.min b d) ts Hs).
+  rewrite filter_filter. apply filter_ext_in'. intros x.
+  destruct (Z.leb_spec a x), (Z.leb_spec x b), (Z.leb_spec c x), (Z.leb_spec x d),
+           (Z.leb_spec (Z.max a c) x), (Z.leb_spec x (Z.min b d)); simpl; try reflexivity; lia.
+Qed.
+
+Lemma get_commute a b c d ts : sortedZ ts ->
+  get_times c d (get_times a b ts) = get_times a b (get_times c d ts).
+Proof. intros Hs. rewrite (get_get a b c d ts Hs), (get_get c d a b ts Hs), Z.max_comm, Z.min_comm. reflexivity. Qed.
+
+Lemma get_idem a b ts : sortedZ ts -> get_times a b (get_times a b ts) = get_times a b ts.
+Proof. intros Hs. rewrite (get_get a b a b ts Hs), Z.max_id, Z.min_id. reflexivity. Qed.
+
+Lemma get_is_restrict a b ts : sortedZ ts -> a < b -> get_times a b ts = restrict_ts ts [(a, b)].
+Proof.
+  intros Hs Hab. rewrite (get_times_spec a b ts Hs).
+  rewrite (restrict_ts_spec ts [(a, b)] Hs) by (simpl; tauto).
+  apply filter_ext_in'. intros x. unfold mem, inb. simpl. rewrite Bool.orb_false_r. reflexivity.
+Qed.
+
+Theorem C08_get_get : forall a b c d ts, sortedZ ts ->
+  get_times c d (get_times a b ts) = get_times (Z.max a c) (Z.min b d) ts.
+Proof. exact get_get. Qed.
+Print Assumptions C08_get_get.
+
+Theorem C08_get_commute_idempotent : forall a b c d ts, sortedZ ts ->
+  get_times c d (get_times a b ts) = get_times a b (get_times c d ts)
+  /\ get_times a b (get_times a b ts) = get_times a b ts.
+Proof. intros a b c d ts Hs. split; [apply get_commute|apply get_idem]; exact Hs. Qed.
+Print Assumptions C08_get_commute_idempotent.
+
+Theorem C08_get_is_restrict : forall a b ts, sortedZ ts -> a < b -> get_times a b ts = restrict_ts ts [(a, b)].
+Proof. exact get_is_restrict. Qed.
+Print Assumptions C08_get_is_restrict.
+
+Example C08_get_get_nonvacuous :
+  get_times 2 9 (get_times 0 5 [0; 1; 2; 2; 4; 5; 5; 7; 9]) = [2; 2; 4; 5; 5]
+  /\ get_times 2 5 [0; 1; 2; 2; 4; 5; 5; 7; 9] = [2; 2; 4; 5; 5]
+  /\ restrict_ts [0; 1; 2; 2; 4; 5; 5; 7; 9] [(2, 5)] = [2; 2; 4; 5; 5].
+Proof. vm_compute. repeat split; reflexivity. Qed.
